@@ -9,6 +9,8 @@
 -/
 import ModVerif.Proofs.ClientLatestInv
 import ModVerif.Proofs.ClientAuth
+import ModVerif.Proofs.ClientMoreFork
+import ModVerif.Proofs.ClientMoreMax
 import ModVerif.Props.C01
 namespace ModVerif.Props.C13
 open ModVerif ModVerif.ClientLatest
@@ -100,14 +102,14 @@ theorem accepted_on_chain (P : Params M T) (le : T → T → Prop) (hS : Sound P
     le pt (s.latest (cl t)) :=
   (inv_reachable P le hS cl presented priv c0 s h).accepted t m pt hm hp (by simp [PastFirst, hd])
 
-/-- ★ (partial) **A presented tree that is inconsistent with the client's IN-MEMORY head is never accepted**: if in some
-reachable state the tree of the message presented to thread `t` is incomparable with `latest` of its client, then in no
-continuation does `t`'s `mergeLatest` return success (so the lookup depending on it fails).
+/-- ★ **A presented tree that is inconsistent with the client's IN-MEMORY head is never accepted** (no hypothesis on
+the run): if in some reachable state the tree of the message presented to thread `t` is incomparable with `latest` of its
+client, then in no continuation does `t`'s `mergeLatest` return success (so the lookup depending on it fails).
 `hlin` says that two prefixes of one tree are comparable (heads below a common head lie on one log).
-What is missing for the full clause of C13 ("inconsistent with the client's stored head"): the in-memory head of a
-long-lived instance can itself have left the stored head's log — see `C13_violated_no_rollback_after_failed_reconciliation`;
-this theorem's hypothesis is about the in-memory head and therefore excludes exactly that situation. -/
-theorem fork_rejected_partial (P : Params M T) (le : T → T → Prop) (hS : Sound P le)
+The clause of C13 about the client's STORED head is `fork_rejected_stored` below; it needs a hypothesis on the run,
+because the in-memory head of a long-lived instance can itself have left the stored head's log — see
+`C13_violated_no_rollback_after_failed_reconciliation`. -/
+theorem fork_rejected_in_memory (P : Params M T) (le : T → T → Prop) (hS : Sound P le)
     (hlin : ∀ a b c, le a c → le b c → le a b ∨ le b a)
     (cl : Nat → Nat) (presented : Nat → Option M) (priv : Nat → Bool) (c0 : Option M)
     (sched : List (Nat × Res)) (s s' : St M T) (h : Reachable P cl presented priv c0 s)
@@ -122,6 +124,55 @@ theorem fork_rejected_partial (P : Params M T) (le : T → T → Prop) (hS : Sou
   rcases hlin _ _ _ h1 h2 with h3 | h3
   · exact hinc.1 h3
   · exact hinc.2 h3
+
+/-- ★ **A presented tree that is inconsistent with the client's STORED head is never accepted — in every run without a
+failed reconciliation.**  The hypothesis that excludes the recorded finding is a predicate on the schedule,
+`cleanRun` (Proofs/ClientMoreFork.lean): no step takes a goroutine from inside the flush loop of `mergeLatest` — i.e. after
+it advanced the in-memory head, while it reconciles with the configuration — to an error return; in other words, the
+in-memory head was never advanced by a lookup whose reconciliation failed.  Under it, for ANY server and any number of
+clients and goroutines: if at some point of the run the tree presented to goroutine `t` is incomparable with the stored
+head, then `t` has not returned success at any later point at which its client has no reconciliation under way
+(`hquiet`; while one is pending the in-memory head is ahead of what was reconciled, and that pending goroutine can then
+only fail — which `cleanRun` excludes — or keep running: see the example `pending_reconciliation_accepts` below).
+`hzero`: the only tree of size 0 is the empty tree; `heq`: a prefix of the same size is the same tree; `hlin`: two
+prefixes of one tree are comparable.  The conclusion is the contrapositive of "every accepted head is a prefix of the
+stored head" (`accepted_below_stored`). -/
+theorem fork_rejected_stored (P : Params M T) (le : T → T → Prop) (hS : Sound P le)
+    (hlin : ∀ a b c, le a c → le b c → le a b ∨ le b a)
+    (hzero : ∀ a, P.size a = 0 → le a P.zero) (heq : ∀ a b, le a b → P.size b ≤ P.size a → le b a)
+    (cl : Nat → Nat) (presented : Nat → Option M) (priv : Nat → Bool) (c0 : Option M)
+    (sched1 sched2 : List (Nat × Res)) (s s' : St M T)
+    (hr1 : run P cl presented priv (init P c0) sched1 = some s)
+    (hr2 : run P cl presented priv s sched2 = some s')
+    (hclean : cleanRun P cl presented priv (init P c0) (sched1 ++ sched2) = true)
+    (t : Nat) (m : M) (pt : T) (hm : presented t = some m) (hp : P.parse m = some pt)
+    (hinc : ¬ le pt (cfgTree P s.config) ∧ ¬ le (cfgTree P s.config) pt)
+    (hquiet : ∀ t', cl t' = cl t → inFlush (s'.th t').pc = false) :
+    (s'.th t).pc ≠ .done .ok := by
+  intro hd
+  obtain ⟨hc1, hc2⟩ := cleanRun_append P cl presented priv sched1 sched2 _ s hr1 hclean
+  have hcr : CReachable P cl presented priv c0 s :=
+    cleanRun_creachable P cl presented priv c0 sched1 _ s CReachable.init hc1 hr1
+  have hcr' : CReachable P cl presented priv c0 s' := cleanRun_creachable P cl presented priv c0 sched2 s s' hcr hc2 hr2
+  obtain ⟨h1, h2⟩ := accepted_below_stored P le hS hzero heq cl presented priv c0 s' hcr' t m pt hm hp hd hquiet
+  have h3 := (latest_monotone P le hS cl presented priv c0 sched2 s s' hcr.reachable hr2).2
+  rcases hlin _ _ _ (hS.trans _ _ _ h1 h2) h3 with h4 | h4
+  · exact hinc.1 h4
+  · exact hinc.2 h4
+
+/-- The positive form: in a run without a failed reconciliation every accepted head is a prefix of the in-memory head,
+which is a prefix of the stored head whenever the client has no reconciliation under way. -/
+theorem accepted_on_stored_chain (P : Params M T) (le : T → T → Prop) (hS : Sound P le)
+    (hzero : ∀ a, P.size a = 0 → le a P.zero) (heq : ∀ a b, le a b → P.size b ≤ P.size a → le b a)
+    (cl : Nat → Nat) (presented : Nat → Option M) (priv : Nat → Bool) (c0 : Option M)
+    (sched : List (Nat × Res)) (s : St M T)
+    (hr : run P cl presented priv (init P c0) sched = some s)
+    (hclean : cleanRun P cl presented priv (init P c0) sched = true)
+    (t : Nat) (m : M) (pt : T) (hm : presented t = some m) (hp : P.parse m = some pt) (hd : (s.th t).pc = .done .ok)
+    (hquiet : ∀ t', cl t' = cl t → inFlush (s.th t').pc = false) :
+    le pt (s.latest (cl t)) ∧ le (s.latest (cl t)) (cfgTree P s.config) :=
+  accepted_below_stored P le hS hzero heq cl presented priv c0 s
+    (cleanRun_creachable P cl presented priv c0 sched _ s CReachable.init hclean hr) t m pt hm hp hd hquiet
 
 /-! ## Non-vacuity and the no-rollback witness, on the concrete two-log instance `forkParams 3`
 (logs A and B share their first 3 records). -/
@@ -157,8 +208,8 @@ def exFinal : Option (St Head Head) :=
 which: the lookup of thread 3 has been ACCEPTED on the tree B@4, the in-memory head of client 1 is B@4, the stored head
 is A@5 — mutually inconsistent —, the stored head was never moved to B, and no `SecurityError` was ever raised.
 (`mergeLatest` installs the presented head in memory before reconciling with the configuration and does not roll back
-when the reconciliation fails.)  So the unrestricted form of `fork_rejected_partial` — with "inconsistent with the stored
-head" in place of "inconsistent with the in-memory head" — is false. -/
+when the reconciliation fails.)  So the unrestricted form of `fork_rejected_stored` — without the hypothesis `cleanRun` on the
+schedule — is false: step 26 of `exSchedule` is a failed reconciliation (`exSchedule_not_clean`). -/
 theorem C13_violated_no_rollback_after_failed_reconciliation :
     ∃ s, Reachable (forkParams 3 true) exCl exPresented exPriv (some (0, 3)) s ∧
       (s.th 3).pc = .done .ok ∧ (s.th 2).pc = .done .err ∧ s.sec = [] ∧
@@ -175,7 +226,7 @@ theorem C13_violated_no_rollback_after_failed_reconciliation :
   obtain ⟨k1, k2, k3, k4, k5, k6⟩ := key
   exact ⟨k1, k2, k3, k4, k5, k6, by decide, by decide⟩
 
-/-- non-vacuity of `fork_rejected_partial`'s hypotheses: after thread 0 moved client 0 to A@5, the head B@4 is
+/-- non-vacuity of `fork_rejected_in_memory`'s hypotheses: after thread 0 moved client 0 to A@5, the head B@4 is
 incomparable with its in-memory head, and `forkLe` is linear below any head. -/
 example : ¬ exLe (1, 4) (0, 5) ∧ ¬ exLe (0, 5) (1, 4) := by simp [exLe, forkLe]
 
@@ -186,6 +237,84 @@ example : ((run (forkParams 3 false) (fun _ => 0) (fun t => if t = 0 then some (
        (1, .ok), (1, .ok), (1, .ok), (1, .fork)]).map
       fun s => ((s.th 1).pc, s.sec, s.config, s.latest 0)) =
     some (.done .security, [(1, some (1, 4), some (0, 5))], some (0, 5), (0, 5)) := by rfl
+
+
+/-- the schedule of the recorded finding is NOT clean: its 26th step is goroutine 2 failing inside the flush loop -/
+theorem exSchedule_not_clean :
+    cleanRun (forkParams 3 true) exCl exPresented exPriv (init (forkParams 3 true) (some (0, 3))) exSchedule = false := by
+  rfl
+
+/-- … while the same schedule cut before that step is clean (so `cleanRun` excludes exactly the failed reconciliation) -/
+example : cleanRun (forkParams 3 true) exCl exPresented exPriv (init (forkParams 3 true) (some (0, 3)))
+    (exSchedule.take 25) = true := by rfl
+
+/-- the order hypotheses of `fork_rejected_stored` hold in the two-log instance -/
+theorem exLe_hyps : (∀ a b c, exLe a c → exLe b c → exLe a b ∨ exLe b a) ∧
+    (∀ a, (forkParams 3 true).size a = 0 → exLe a (forkParams 3 true).zero) ∧
+    (∀ a b, exLe a b → (forkParams 3 true).size b ≤ (forkParams 3 true).size a → exLe b a) := by
+  refine ⟨?_, ?_, ?_⟩
+  · intro a b c; simp only [exLe, forkLe, Bool.and_eq_true, Bool.or_eq_true, decide_eq_true_eq, beq_iff_eq]; omega
+  · intro a; simp only [exLe, forkLe, forkParams, Bool.and_eq_true, Bool.or_eq_true, decide_eq_true_eq, beq_iff_eq]; omega
+  · intro a b; simp only [exLe, forkLe, forkParams, Bool.and_eq_true, Bool.or_eq_true, decide_eq_true_eq, beq_iff_eq]; omega
+
+/-- non-vacuity of `fork_rejected_stored`: a hostile server, client 0; goroutine 0 brings the stored head to A@5
+(`sched1`), then goroutine 1 is shown B@4, which is incomparable with the stored head; the fork is detected in the
+first `mergeLatestMem` (`sched2`), nothing is pending afterwards, the whole schedule is clean — and goroutine 1 has
+not returned success. -/
+def nvSched1 : List (Nat × Res) := List.replicate 9 (0, .ok)
+def nvSched2 : List (Nat × Res) := [(1, .ok), (1, .ok), (1, .ok), (1, .fork)]
+def nvPresented : Nat → Option Head := fun t => if t = 0 then some (0, 5) else some (1, 4)
+
+example : ∃ s s', run (forkParams 3 true) (fun _ => 0) nvPresented (fun _ => false) (init (forkParams 3 true) none) nvSched1 = some s ∧
+    run (forkParams 3 true) (fun _ => 0) nvPresented (fun _ => false) s nvSched2 = some s' ∧
+    cleanRun (forkParams 3 true) (fun _ => 0) nvPresented (fun _ => false) (init (forkParams 3 true) none) (nvSched1 ++ nvSched2) = true ∧
+    (¬ exLe (1, 4) (cfgTree (forkParams 3 true) s.config) ∧ ¬ exLe (cfgTree (forkParams 3 true) s.config) (1, 4)) ∧
+    (∀ t', inFlush (s'.th t').pc = false) ∧ (s'.th 1).pc = .done .security := by
+  have h1 : ∃ s, run (forkParams 3 true) (fun _ => 0) nvPresented (fun _ => false) (init (forkParams 3 true) none) nvSched1 = some s :=
+    Option.isSome_iff_exists.mp (by decide)
+  obtain ⟨s, hs⟩ := h1
+  have h2 : ∃ s', run (forkParams 3 true) (fun _ => 0) nvPresented (fun _ => false) (init (forkParams 3 true) none) (nvSched1 ++ nvSched2) = some s' :=
+    Option.isSome_iff_exists.mp (by decide)
+  obtain ⟨s', hs'⟩ := h2
+  have hs2 : run (forkParams 3 true) (fun _ => 0) nvPresented (fun _ => false) s nvSched2 = some s' := by
+    have k : (run (forkParams 3 true) (fun _ => 0) nvPresented (fun _ => false) (init (forkParams 3 true) none) nvSched1).bind
+        (fun s => run (forkParams 3 true) (fun _ => 0) nvPresented (fun _ => false) s nvSched2) =
+        run (forkParams 3 true) (fun _ => 0) nvPresented (fun _ => false) (init (forkParams 3 true) none) (nvSched1 ++ nvSched2) := by rfl
+    rw [hs, hs'] at k; simpa using k
+  have kc : (run (forkParams 3 true) (fun _ => 0) nvPresented (fun _ => false) (init (forkParams 3 true) none) nvSched1).map (·.config) =
+      some (some (0, 5)) := by rfl
+  rw [hs] at kc
+  simp only [Option.map_some, Option.some.injEq] at kc
+  have kp : (run (forkParams 3 true) (fun _ => 0) nvPresented (fun _ => false) (init (forkParams 3 true) none) (nvSched1 ++ nvSched2)).map
+      (fun s => ((s.th 0).pc, (s.th 1).pc)) = some (.done .ok, .done .security) := by rfl
+  rw [hs'] at kp
+  simp only [Option.map_some, Option.some.injEq, Prod.mk.injEq] at kp
+  refine ⟨s, s', hs, hs2, by rfl, ?_, ?_, kp.2⟩
+  · rw [kc]; simp [exLe, forkLe, cfgTree, forkParams]
+  · intro t'
+    by_cases h : ∃ x ∈ nvSched1 ++ nvSched2, x.1 = t'
+    · obtain ⟨x, hx, rfl⟩ := h
+      have : x.1 = 0 ∨ x.1 = 1 := by
+        simp only [nvSched1, nvSched2, List.mem_append, List.mem_replicate, List.mem_cons, List.not_mem_nil, or_false] at hx
+        rcases hx with ⟨_, rfl⟩ | rfl | rfl | rfl | rfl <;> simp
+      rcases this with e | e <;> rw [e]
+      · rw [kp.1]; rfl
+      · rw [kp.2]; rfl
+    · rw [run_th_frame _ _ _ _ (nvSched1 ++ nvSched2) _ s' t' (fun x hx e => h ⟨x, hx, e⟩) hs']
+      rfl
+
+/-- why `hquiet` is needed (the same finding seen from a second goroutine): the stored head is A@5; goroutine 1 of a
+fresh client is shown B@4, installs it in memory and is about to read the configuration; goroutine 2 of the same client
+is shown B@4, finds it equal to the in-memory head and RETURNS SUCCESS — the run is clean so far.  Goroutine 1's
+`checkTrees(B@4, A@5)` can then only answer `fork` or fail. -/
+theorem pending_reconciliation_accepts :
+    ((run (forkParams 3 true) (fun _ => 1) (fun _ => some (1, 4)) (fun _ => false) (init (forkParams 3 true) (some (0, 5)))
+      (List.replicate 5 (1, .ok) ++ List.replicate 4 (2, .ok))).map
+      fun s => ((s.th 1).pc, (s.th 2).pc, s.latest 1, s.config)) = some (.readConfig, .done .ok, (1, 4), some (0, 5)) ∧
+    cleanRun (forkParams 3 true) (fun _ => 1) (fun _ => some (1, 4)) (fun _ => false) (init (forkParams 3 true) (some (0, 5)))
+      (List.replicate 5 (1, .ok) ++ List.replicate 4 (2, .ok)) = true ∧
+    Res.ok ∉ (forkParams 3 true).chk (1, 4) (0, 5) := by
+  refine ⟨by rfl, by rfl, by decide⟩
 
 
 /-! ## The verification layer instantiated with the sequential client model (Model/Client.lean)
